@@ -69,13 +69,17 @@ def units(tier, seed):
             for prov in S.PROVENANCES:
                 if not lx and prov != "C":
                     continue
+                if len(lx) == 5 and prov in ("F", "transposed"):
+                    continue  # (five-dimensional arrays: C and strided-view buffers)
                 out.append(dict(pattern=pat, lx="".join(lx), prov=prov, universe=uni))
     # the same requests put to an array WITH A PAST over numeric, unsorted items: the array is the result of
     # summing a larger parent array, its total and shares were already asked for, and its values were then
     # doubled in place
     for pat in (("2323",) if tier == "quick" else ("2323", "all3")):
         for lx in S.arrangements(uni):
-            for prov in S.PROVENANCES:
+            if len(lx) > 4:
+                continue  # (thorough: the derived stage stays with arrays of up to four dimensions)
+            for prov in S.PROVENANCES if tier == "quick" else ("C", "view"):
                 if not lx and prov != "C":
                     continue
                 out.append(dict(pattern=pat, lx="".join(lx), prov=prov, universe=uni, stage="derived"))
